@@ -1,5 +1,6 @@
 """C12 -- vertex tracking between frames is injective and follows small motions."""
 from fractions import Fraction
+import math
 import numpy as np
 import common as C
 import gen
@@ -85,6 +86,28 @@ def check_series(res, specs, times, truth, cm, guess_kind, rng, exprs, label):
             if v is not None and v not in ends0[t + 1] and k not in guess[t]:
                 bad.append(f"mapping {t}: {k} sent to {v}, which is not an interface end point of frame {t + 1}")
                 break
+        # the premise of the 'true successor' clause for THIS pair of frames: every end point moves by less than half the smallest end-point
+        # spacing (of either frame) and by less than 8 % of the extent.  The generator bounds the motion by the spacing of the FIRST frame;
+        # random fields can bring two junctions together over several steps, after which a later pair is outside the premise
+        pos0 = {r_[0]: (r_[1], r_[2]) for r_ in specs[t]["vertices"]}
+        pos1 = {r_[0]: (r_[1], r_[2]) for r_ in specs[t + 1]["vertices"]}
+        move = max((math.hypot(pos1[truth[t][k]][0] - pos0[k][0], pos1[truth[t][k]][1] - pos0[k][1]) for k in ends0[t]), default=0.0)
+
+        def min_spacing(P):
+            P = sorted(P)
+            best = float("inf")
+            for i_, a_ in enumerate(P):
+                for b_ in P[i_ + 1:]:
+                    if b_[0] - a_[0] >= best:
+                        break
+                    best = min(best, math.hypot(b_[0] - a_[0], b_[1] - a_[1]))
+            return best
+        sp = min(min_spacing([pos0[k] for k in ends0[t]]), min_spacing([pos1[k] for k in ends0[t + 1]]))
+        allp = list(pos0.values()) + list(pos1.values())
+        ext = max(max(p_[0] for p_ in allp) - min(p_[0] for p_ in allp), max(p_[1] for p_ in allp) - min(p_[1] for p_ in allp))
+        if not (move < 0.5 * sp and move < 0.08 * ext):
+            res.count("pair of frames outside the motion bounds of the statement (true-successor clause not judged)")
+            continue
         for k in ends0[t]:
             if k in guess[t]:
                 continue
